@@ -2,9 +2,11 @@ import ClaripyProofs.Lemmas.VSA.Convert
 import ClaripyProofs.Lemmas.VSA.NotExt
 import ClaripyProofs.Lemmas.VSA.Extract
 import ClaripyProofs.Lemmas.VSA.Signed
+import ClaripyProofs.Lemmas.VSA.NormalForm
 /-!
 The structural soundness theorem of `convBV`/`convB` with the *proved* interval operations discharged:
-`add, sub, neg, not, zero_extend, extract, udiv, shl, lshr, union (If), ULT/ULE/UGT/UGE`.  What is left as a hypothesis
+`add, sub, neg, not, zero_extend, extract, udiv, shl, lshr, union (If), ULT/ULE/UGT/UGE, SLT/SLE/SGT/SGE`.
+The induction also carries constructor-normal form (`Nrm`), which the signed orderings need.  What is left as a hypothesis
 (`OpsRest`) is consulted only at nodes that use one of the remaining operations, so ASTs inside the proved fragment get
 an unconditional theorem.  The ASTs considered here have a defined value at every node (no division by zero anywhere,
 also not in a branch that is not taken): the proved operations are closed on *non-empty* intervals, and non-emptiness of
@@ -21,31 +23,21 @@ def signedCmp : CmpOp → Bool
   | _ => false
 
 def restCmp : CmpOp → Bool
-  | .ult | .ule | .ugt | .uge => false
-  | _ => true
+  | .eq | .ne => true
+  | _ => false
 
 /-- the obligations that are not proved yet (same shape as the corresponding fields of `OpsOK`) -/
 structure OpsRest : Prop where
   bin : ∀ (op : BinOp) (a b r : SI) (o o' : Orders), restBin op = true → a.WF → b.WF → a.bits = b.bits →
     applyBin op a b o = .ok (r, o') →
-    (r.WF ∧ r.bits = a.bits) ∧ ∀ x y v, a.mem x → b.mem y → concBin op a.bits x y = some v → r.mem v
+    ((r.WF ∧ r.bits = a.bits) ∧ Nrm r) ∧ ∀ x y v, a.mem x → b.mem y → concBin op a.bits x y = some v → r.mem v
   sext : ∀ (a r : SI) (k : Nat), a.WF → a.signExtend (k + a.bits) = .ok r →
-    (r.WF ∧ r.bits = k + a.bits) ∧ ∀ x, a.mem x → r.mem (Conc.sext a.bits (k + a.bits) x)
+    ((r.WF ∧ r.bits = k + a.bits) ∧ Nrm r) ∧ ∀ x, a.mem x → r.mem (Conc.sext a.bits (k + a.bits) x)
   sextKeeps : ∀ (a : SI) (k x : Nat), a.WF → sextKeeps a = .ok true → a.mem x → Conc.sext a.bits (k + a.bits) x = x
   concat : ∀ (a b r : SI), a.WF → b.WF → a.concat b = .ok r →
-    (r.WF ∧ r.bits = a.bits + b.bits) ∧ ∀ x y, a.mem x → b.mem y → r.mem (Conc.concat b.bits x y)
-  scmp : ∀ (op : CmpOp) (a b : AV) (br : BoolRes), signedCmp op = true → a.si.WF → b.si.WF → a.si.bits = b.si.bits →
-    applyCmp op a b = .ok br → ∀ x y, a.si.mem x → b.si.mem y → br.has (concCmp op a.si.bits x y) = true
+    ((r.WF ∧ r.bits = a.bits + b.bits) ∧ Nrm r) ∧ ∀ x y, a.mem x → b.mem y → r.mem (Conc.concat b.bits x y)
   meet : ∀ (a b r : SI) (x : Nat), a.WF → b.WF → a.bits = b.bits → a.intersection b = .ok r → a.mem x → b.mem x →
     r.bottom = false
-
-theorem OpsOK.rest (H : OpsOK) : OpsRest where
-  bin := fun op a b r o o' _ => H.bin op a b r o o'
-  sext := H.sext
-  sextKeeps := H.sextKeeps
-  concat := H.concat
-  scmp := fun op a b br hs => H.cmp op a b br (by intro h; subst h; cases hs) (by intro h; subst h; cases hs)
-  meet := H.meet
 
 mutual
 /-- does the AST use an operation whose interval transfer function is not proved? -/
@@ -222,19 +214,117 @@ theorem bin_proved (op : BinOp) (hop : restBin op = false) (a b r : SI) (o o' : 
     subst hv
     exact g2 x y hx hy
 
+/-! ### the proved operations return intervals in constructor-normal form -/
+
+theorem not_nrm (a r : SI) (hw : r.WF) (h : a.bitwiseNot = .ok r) : Nrm r := by
+  unfold SI.bitwiseNot at h
+  obtain ⟨ps, _, h⟩ := bind_ok _ _ _ h
+  obtain ⟨u, _, h⟩ := bind_ok _ _ _ h
+  exact nrm_of_renorm u r (pure_ok _ _ h) hw
+
+theorem extract_nrm (a r : SI) (hi lo : Nat) (hw : r.WF) (h : a.extract hi lo = .ok r) : Nrm r := by
+  unfold SI.extract at h
+  simp only [bind, Except.bind, pure, Except.pure] at h
+  repeat' (split at h)
+  all_goals first | (exact nrm_of_renorm _ r (by cases h; rfl) hw) | cases h
+
+theorem udiv_nrm (a b r : SI) (order : List Nat) (hw : r.WF) (h : a.udiv b order = .ok r) : Nrm r := by
+  unfold SI.udiv at h
+  obtain ⟨ds, _, h⟩ := bind_ok _ _ _ h
+  obtain ⟨vs, _, h⟩ := bind_ok _ _ _ h
+  simp only [] at h
+  split at h
+  · cases h
+  · obtain ⟨u, _, h⟩ := bind_ok _ _ _ h
+    exact nrm_of_renorm u r (pure_ok _ _ h) hw
+
+theorem overRange_nrm (self : SI) (lower upper : Nat) (f : Nat → R SI) (r : SI) (hb : 0 < self.bits) (hw : r.WF)
+    (h : overRange self lower upper f = .ok r) : Nrm r := by
+  unfold overRange at h
+  split at h
+  · cases h
+  · have : r = SI.top self.bits := by cases h; rfl
+    subst this; exact nrm_top _ hb
+  · rename_i u _
+    have : r = u.renorm := by cases h; rfl
+    exact nrm_of_renorm u r this hw
+
+theorem zext_nrm (a r : SI) (nl : Nat) (ha : a.WF) (hnb : a.bottom = false) (na : Nrm a) (hnl : a.bits ≤ nl) (hw : r.WF)
+    (h : a.zeroExtend nl = .ok r) : Nrm r := by
+  have hnl0 : 0 < nl := Nat.lt_of_lt_of_le ha.1 hnl
+  unfold SI.zeroExtend at h
+  by_cases hwrap : (!a.bottom && decide (a.lb > a.ub)) = true
+  · rw [if_pos hwrap] at h
+    have hw' : a.ub < a.lb := by simpa [hnb] using hwrap
+    have hsp := ssplit_wrap a ha hw'
+    simp only [] at hsp
+    rw [hsp] at h
+    simp only [bind, Except.bind] at h
+    split at h
+    · -- one piece
+      simp only [List.map_cons, List.map_nil] at h
+      unfold leastUpperBound at h
+      exact nrm_of_renorm _ r (pure_ok _ _ h) hw
+    · simp only [List.map_cons, List.map_nil] at h
+      unfold leastUpperBound at h
+      have hr := pure_ok _ _ h
+      rw [hr]
+      apply pseudoJoin_nrm_nb _ _ _ hnl0
+      · show (SI.new _ _ _ _).renorm.bottom = false
+        unfold SI.renorm; rw [new_bottom]; simp
+      · show (SI.new _ _ _ _).renorm.bottom = false
+        unfold SI.renorm; rw [new_bottom]; simp
+  · rw [if_neg hwrap] at h
+    have hr := pure_ok _ _ h
+    rw [hr, na]
+    exact widen_bits_nrm a nl ha hnb na hnl
+
+theorem bin_proved_nrm (op : BinOp) (hop : restBin op = false) (a b r : SI) (o o' : Orders) (wa : a.WF)
+    (hw : r.WF) (h : applyBin op a b o = .ok (r, o')) : Nrm r := by
+  cases op <;> simp only [restBin] at hop <;> try (exact absurd hop (by decide))
+  · simp only [applyBin] at h
+    have := pure_ok _ _ h
+    cases this
+    exact add_nrm a b wa
+  · simp only [applyBin] at h
+    have := pure_ok _ _ h
+    cases this
+    exact sub_nrm a b wa
+  · cases o with
+    | nil => simp only [applyBin] at h; cases h
+    | cons od rest =>
+      simp only [applyBin] at h
+      obtain ⟨r1, h1, h⟩ := bind_ok _ _ _ h
+      have := pure_ok _ _ h
+      cases this
+      exact udiv_nrm a b r od hw h1
+  · simp only [applyBin] at h
+    obtain ⟨r1, h1, h⟩ := bind_ok _ _ _ h
+    have := pure_ok _ _ h
+    cases this
+    unfold SI.lshift SI.lshiftRange at h1
+    exact overRange_nrm a _ _ _ r wa.1 hw h1
+  · simp only [applyBin] at h
+    obtain ⟨r1, h1, h⟩ := bind_ok _ _ _ h
+    have := pure_ok _ _ h
+    cases this
+    unfold SI.rshiftLogical SI.rshiftLogicalRange at h1
+    exact overRange_nrm a _ _ _ r wa.1 hw h1
+
 theorem or_true_of_left {a b : Bool} (h : a = true) : (a || b) = true := by simp [h]
 theorem or_true_of_right {a b : Bool} (h : b = true) : (a || b) = true := by simp [h]
 
 mutual
 /-- soundness of `convBV` with the proved operations discharged -/
 theorem convBV_rest_good (anno : Nat → SI) (env : Nat → Nat)
-    (hctx : ∀ i, (anno i).WF ∧ (anno i).mem (env i)) :
+    (hctx : ∀ i, (anno i).WF ∧ (anno i).mem (env i)) (hnrm : ∀ i, Nrm (anno i)) :
     ∀ (e : BV) (o : Orders) (av : AV) (o' : Orders), (usesRestBV e = true → OpsRest) → DefBV env e → WTBV anno env e →
-      convBV anno e o = .ok (av, o') → GoodBV env e av
+      convBV anno e o = .ok (av, o') → GoodBV env e av ∧ Nrm av.si
   | .var i w, o, av, o', _, _, hwt, h => by
     simp only [convBV] at h
     have := pure_ok _ _ h
     cases this
+    refine ⟨?_, hnrm i⟩
     refine ⟨⟨(hctx i).1, hwt⟩, ?_⟩
     intro v hv
     simp only [evalBV] at hv
@@ -244,6 +334,7 @@ theorem convBV_rest_good (anno : Nat → SI) (env : Nat → Nat)
     simp only [convBV] at h
     have := pure_ok _ _ h
     cases this
+    refine ⟨?_, nrm_top w hwt.1⟩
     refine ⟨⟨top_WF w hwt.1, top_bits w⟩, ?_⟩
     intro v hv
     simp only [evalBV] at hv
@@ -253,6 +344,7 @@ theorem convBV_rest_good (anno : Nat → SI) (env : Nat → Nat)
     simp only [convBV] at h
     have := pure_ok _ _ h
     cases this
+    refine ⟨?_, nrm_new _ _ _ _ hwt.1⟩
     refine ⟨⟨const_WF c w hwt.1, by simp [wd]⟩, ?_⟩
     intro v hv
     simp only [evalBV] at hv
@@ -267,19 +359,21 @@ theorem convBV_rest_good (anno : Nat → SI) (env : Nat → Nat)
     cases this
     have Ra : usesRestBV a = true → OpsRest := fun hh => R (by simp [usesRestBV, hh])
     have Rb : usesRestBV b = true → OpsRest := fun hh => R (by simp [usesRestBV, hh])
-    obtain ⟨⟨wa, ba⟩, ma⟩ := convBV_rest_good anno env hctx a o p1.1 p1.2 Ra hdef.1 hwt.1 h1
-    obtain ⟨⟨wb, bb⟩, mb⟩ := convBV_rest_good anno env hctx b p1.2 p2.1 p2.2 Rb hdef.2.1 hwt.2.1 h2
+    obtain ⟨⟨⟨wa, ba⟩, ma⟩, na⟩ := convBV_rest_good anno env hctx hnrm a o p1.1 p1.2 Ra hdef.1 hwt.1 h1
+    obtain ⟨⟨⟨wb, bb⟩, mb⟩, nb⟩ := convBV_rest_good anno env hctx hnrm b p1.2 p2.1 p2.2 Rb hdef.2.1 hwt.2.1 h2
     have hbits : p1.1.si.bits = p2.1.si.bits := by rw [ba, bb]; exact hwt.2.2
     obtain ⟨x0, hx0⟩ := defBV_some env a hdef.1
     obtain ⟨y0, hy0⟩ := defBV_some env b hdef.2.1
     have hab : p1.1.si.bottom = false := (ma x0 hx0).1.1
     have hbb : p2.1.si.bottom = false := (mb y0 hy0).1.1
-    have key : (p3.1.WF ∧ p3.1.bits = p1.1.si.bits) ∧
+    have key : ((p3.1.WF ∧ p3.1.bits = p1.1.si.bits) ∧ Nrm p3.1) ∧
         ∀ x y v, p1.1.si.mem x → p2.1.si.mem y → concBin op p1.1.si.bits x y = some v → p3.1.mem v := by
       by_cases hr : restBin op = true
       · exact (R (by simp [usesRestBV, hr])).bin op _ _ _ _ _ hr wa wb hbits h3
-      · exact bin_proved op (by simpa using hr) _ _ _ _ _ wa wb hbits hab hbb h3
-    obtain ⟨⟨wr, br⟩, mr⟩ := key
+      · have k1 := bin_proved op (by simpa using hr) _ _ _ _ _ wa wb hbits hab hbb h3
+        exact ⟨⟨k1.1, bin_proved_nrm op (by simpa using hr) _ _ _ _ _ wa k1.1.1 h3⟩, k1.2⟩
+    obtain ⟨⟨⟨wr, br⟩, nr⟩, mr⟩ := key
+    refine ⟨?_, nr⟩
     refine ⟨⟨wr, by rw [br, ba]; rfl⟩, ?_⟩
     intro v hv
     simp only [evalBV] at hv
@@ -292,8 +386,9 @@ theorem convBV_rest_good (anno : Nat → SI) (env : Nat → Nat)
     have := pure_ok _ _ h
     cases this
     have Ra : usesRestBV a = true → OpsRest := fun hh => R (by simp [usesRestBV, hh])
-    obtain ⟨⟨wa, ba⟩, ma⟩ := convBV_rest_good anno env hctx a o p1.1 p1.2 Ra hdef hwt h1
+    obtain ⟨⟨⟨wa, ba⟩, ma⟩, na⟩ := convBV_rest_good anno env hctx hnrm a o p1.1 p1.2 Ra hdef hwt h1
     obtain ⟨wr, br⟩ := neg_WF p1.1.si wa
+    refine ⟨?_, neg_nrm p1.1.si wa⟩
     refine ⟨⟨wr, by rw [br, ba]; rfl⟩, ?_⟩
     intro v hv
     simp only [evalBV] at hv
@@ -311,9 +406,10 @@ theorem convBV_rest_good (anno : Nat → SI) (env : Nat → Nat)
     have := pure_ok _ _ h
     cases this
     have Ra : usesRestBV a = true → OpsRest := fun hh => R (by simp [usesRestBV, hh])
-    obtain ⟨⟨wa, ba⟩, ma⟩ := convBV_rest_good anno env hctx a o p1.1 p1.2 Ra hdef hwt h1
+    obtain ⟨⟨⟨wa, ba⟩, ma⟩, na⟩ := convBV_rest_good anno env hctx hnrm a o p1.1 p1.2 Ra hdef hwt h1
     obtain ⟨x0, hx0⟩ := defBV_some env a hdef
     obtain ⟨⟨wr, br⟩, mr⟩ := not_sound p1.1.si r wa (ma x0 hx0).1.1 h2
+    refine ⟨?_, not_nrm p1.1.si r wr h2⟩
     refine ⟨⟨wr, by rw [br, ba]; rfl⟩, ?_⟩
     intro v hv
     simp only [evalBV] at hv
@@ -331,9 +427,10 @@ theorem convBV_rest_good (anno : Nat → SI) (env : Nat → Nat)
     have := pure_ok _ _ h
     cases this
     have Ra : usesRestBV a = true → OpsRest := fun hh => R (by simp [usesRestBV, hh])
-    obtain ⟨⟨wa, ba⟩, ma⟩ := convBV_rest_good anno env hctx a o p1.1 p1.2 Ra hdef hwt h1
+    obtain ⟨⟨⟨wa, ba⟩, ma⟩, na⟩ := convBV_rest_good anno env hctx hnrm a o p1.1 p1.2 Ra hdef hwt h1
     obtain ⟨x0, hx0⟩ := defBV_some env a hdef
     obtain ⟨⟨wr, br⟩, mr⟩ := zext_sound p1.1.si r (k + p1.1.si.bits) wa (ma x0 hx0).1.1 (by omega) h2
+    refine ⟨?_, zext_nrm p1.1.si r (k + p1.1.si.bits) wa (ma x0 hx0).1.1 na (by omega) wr h2⟩
     refine ⟨⟨wr, by rw [br, ba]; rfl⟩, ?_⟩
     intro v hv
     simp only [evalBV] at hv
@@ -351,8 +448,9 @@ theorem convBV_rest_good (anno : Nat → SI) (env : Nat → Nat)
     have := pure_ok _ _ h
     cases this
     have H := R (by simp [usesRestBV])
-    obtain ⟨⟨wa, ba⟩, ma⟩ := convBV_rest_good anno env hctx a o p1.1 p1.2 (fun _ => H) hdef hwt h1
-    obtain ⟨⟨wr, br⟩, mr⟩ := H.sext p1.1.si r k wa h2
+    obtain ⟨⟨⟨wa, ba⟩, ma⟩, na⟩ := convBV_rest_good anno env hctx hnrm a o p1.1 p1.2 (fun _ => H) hdef hwt h1
+    obtain ⟨⟨⟨wr, br⟩, nr⟩, mr⟩ := H.sext p1.1.si r k wa h2
+    refine ⟨?_, nr⟩
     refine ⟨⟨wr, by rw [br, ba]; rfl⟩, ?_⟩
     intro v hv
     simp only [evalBV] at hv
@@ -375,9 +473,10 @@ theorem convBV_rest_good (anno : Nat → SI) (env : Nat → Nat)
     have := pure_ok _ _ h
     cases this
     have Ra : usesRestBV a = true → OpsRest := fun hh => R (by simp [usesRestBV, hh])
-    obtain ⟨⟨wa, ba⟩, ma⟩ := convBV_rest_good anno env hctx a o p1.1 p1.2 Ra hdef hwt.1 h1
+    obtain ⟨⟨⟨wa, ba⟩, ma⟩, na⟩ := convBV_rest_good anno env hctx hnrm a o p1.1 p1.2 Ra hdef hwt.1 h1
     obtain ⟨x0, hx0⟩ := defBV_some env a hdef
     obtain ⟨⟨wr, br⟩, mr⟩ := extract_sound p1.1.si r hi lo wa (ma x0 hx0).1.1 hwt.2.1 (by rw [ba]; exact hwt.2.2) h2
+    refine ⟨?_, extract_nrm p1.1.si r hi lo wr h2⟩
     refine ⟨⟨wr, by rw [br]; rfl⟩, ?_⟩
     intro v hv
     simp only [evalBV] at hv
@@ -406,9 +505,10 @@ theorem convBV_rest_good (anno : Nat → SI) (env : Nat → Nat)
     have := pure_ok _ _ h
     cases this
     have H := R (by simp [usesRestBV])
-    obtain ⟨⟨wa, ba⟩, ma⟩ := convBV_rest_good anno env hctx a o p1.1 p1.2 (fun _ => H) hdef.1 hwt.1 h1
-    obtain ⟨⟨wb, bb⟩, mb⟩ := convBV_rest_good anno env hctx b p1.2 p2.1 p2.2 (fun _ => H) hdef.2 hwt.2 h2
-    obtain ⟨⟨wr, br⟩, mr⟩ := H.concat p1.1.si p2.1.si r wa wb h3
+    obtain ⟨⟨⟨wa, ba⟩, ma⟩, na⟩ := convBV_rest_good anno env hctx hnrm a o p1.1 p1.2 (fun _ => H) hdef.1 hwt.1 h1
+    obtain ⟨⟨⟨wb, bb⟩, mb⟩, nb⟩ := convBV_rest_good anno env hctx hnrm b p1.2 p2.1 p2.2 (fun _ => H) hdef.2 hwt.2 h2
+    obtain ⟨⟨⟨wr, br⟩, nr⟩, mr⟩ := H.concat p1.1.si p2.1.si r wa wb h3
+    refine ⟨?_, nr⟩
     refine ⟨⟨wr, by rw [br, ba, bb]; rfl⟩, ?_⟩
     intro v hv
     simp only [evalBV] at hv
@@ -427,15 +527,16 @@ theorem convBV_rest_good (anno : Nat → SI) (env : Nat → Nat)
     have Rc : usesRestB c = true → OpsRest := fun hh => R (by simp [usesRestBV, hh])
     have Ra : usesRestBV a = true → OpsRest := fun hh => R (by simp [usesRestBV, hh])
     have Rb : usesRestBV b = true → OpsRest := fun hh => R (by simp [usesRestBV, hh])
-    have gc := convB_rest_good anno env hctx c o pc.1 pc.2 Rc hdef.1 hwt.1 hc
-    obtain ⟨⟨wa, ba⟩, ma⟩ := convBV_rest_good anno env hctx a pc.2 p1.1 p1.2 Ra hdef.2.1 hwt.2.1 h1
-    obtain ⟨⟨wb, bb⟩, mb⟩ := convBV_rest_good anno env hctx b p1.2 p2.1 p2.2 Rb hdef.2.2 hwt.2.2.1 h2
+    have gc := convB_rest_good anno env hctx hnrm c o pc.1 pc.2 Rc hdef.1 hwt.1 hc
+    obtain ⟨⟨⟨wa, ba⟩, ma⟩, na⟩ := convBV_rest_good anno env hctx hnrm a pc.2 p1.1 p1.2 Ra hdef.2.1 hwt.2.1 h1
+    obtain ⟨⟨⟨wb, bb⟩, mb⟩, nb⟩ := convBV_rest_good anno env hctx hnrm b p1.2 p2.1 p2.2 Rb hdef.2.2 hwt.2.2.1 h2
     have hbits : p1.1.si.bits = p2.1.si.bits := by rw [ba, bb]; exact hwt.2.2.2
     unfold iteBV at h3
     by_cases hT : (!pc.1.hasTrue) = true
     · rw [if_pos hT] at h3
       have := pure_ok _ _ h3
       cases this
+      refine ⟨?_, nb⟩
       refine ⟨⟨wb, by rw [bb]; exact hwt.2.2.2.symm⟩, ?_⟩
       intro v hv
       simp only [evalBV] at hv
@@ -449,6 +550,7 @@ theorem convBV_rest_good (anno : Nat → SI) (env : Nat → Nat)
       · rw [if_pos hF] at h3
         have := pure_ok _ _ h3
         cases this
+        refine ⟨?_, na⟩
         refine ⟨⟨wa, ba⟩, ?_⟩
         intro v hv
         simp only [evalBV] at hv
@@ -462,6 +564,11 @@ theorem convBV_rest_good (anno : Nat → SI) (env : Nat → Nat)
         have := pure_ok _ _ h3
         cases this
         obtain ⟨⟨wr, br⟩, mr⟩ := union_sup p1.1.si.bits p1.1.si p2.1.si u ⟨wa, rfl⟩ ⟨wb, hbits.symm⟩ hu
+        have nu : Nrm u := by
+          unfold SI.union leastUpperBound at hu
+          have := pure_ok _ _ hu
+          rw [this]; exact pseudoJoin_nrm _ _ true wa na nb
+        refine ⟨?_, nu⟩
         refine ⟨⟨wr, by rw [br, ba]; rfl⟩, ?_⟩
         intro v hv
         simp only [evalBV] at hv
@@ -472,7 +579,7 @@ theorem convBV_rest_good (anno : Nat → SI) (env : Nat → Nat)
         | false => simp only [Bool.false_eq_true, if_false] at hv; exact mr v (Or.inr (mb v hv).1)
 /-- … and of `convB`. -/
 theorem convB_rest_good (anno : Nat → SI) (env : Nat → Nat)
-    (hctx : ∀ i, (anno i).WF ∧ (anno i).mem (env i)) :
+    (hctx : ∀ i, (anno i).WF ∧ (anno i).mem (env i)) (hnrm : ∀ i, Nrm (anno i)) :
     ∀ (c : BExp) (o : Orders) (br : BoolRes) (o' : Orders), (usesRestB c = true → OpsRest) → DefB env c → WTB anno env c →
       convB anno c o = .ok (br, o') → GoodB env c br
   | .lit b, o, br, o', _, _, _, h => by
@@ -492,8 +599,8 @@ theorem convB_rest_good (anno : Nat → SI) (env : Nat → Nat)
     cases this
     have Ra : usesRestBV a = true → OpsRest := fun hh => R (by simp [usesRestB, hh])
     have Rb : usesRestBV b = true → OpsRest := fun hh => R (by simp [usesRestB, hh])
-    obtain ⟨⟨wa, ba⟩, ma⟩ := convBV_rest_good anno env hctx a o p1.1 p1.2 Ra hdef.1 hwt.1 h1
-    obtain ⟨⟨wb, bb⟩, mb⟩ := convBV_rest_good anno env hctx b p1.2 p2.1 p2.2 Rb hdef.2 hwt.2.1 h2
+    obtain ⟨⟨⟨wa, ba⟩, ma⟩, na⟩ := convBV_rest_good anno env hctx hnrm a o p1.1 p1.2 Ra hdef.1 hwt.1 h1
+    obtain ⟨⟨⟨wb, bb⟩, mb⟩, nb⟩ := convBV_rest_good anno env hctx hnrm b p1.2 p2.1 p2.2 Rb hdef.2 hwt.2.1 h2
     have hbits : p1.1.si.bits = p2.1.si.bits := by rw [ba, bb]; exact hwt.2.2
     intro bv hbv
     simp only [evalB] at hbv
@@ -557,19 +664,20 @@ theorem convB_rest_good (anno : Nat → SI) (env : Nat → Nat)
           subst this
           have := brNot_has rr _ (heqN rr hrr)
           simpa [concCmp] using this
-        · rw [← ba]
-          have hs : signedCmp op = true := by cases op <;> simp_all [restCmp, signedCmp]
-          exact H.scmp op p1.1 p2.1 br hs wa wb hbits h3 x y hmx hmy
+        · exfalso; cases op <;> simp_all [restCmp]
     · rw [← ba]
-      have hu : op = .ult ∨ op = .ule ∨ op = .ugt ∨ op = .uge := by cases op <;> simp_all [restCmp]
-      exact ucmp_sound op hu p1.1 p2.1 br wa wb h3 x y hmx hmy
+      by_cases hsg : signedCmp op = true
+      · have hs : op = .slt ∨ op = .sle ∨ op = .sgt ∨ op = .sge := by cases op <;> simp_all [signedCmp]
+        exact scmp_sound op hs p1.1 p2.1 br wa wb hbits na nb h3 x y hmx hmy
+      · have hu : op = .ult ∨ op = .ule ∨ op = .ugt ∨ op = .uge := by cases op <;> simp_all [restCmp, signedCmp]
+        exact ucmp_sound op hu p1.1 p2.1 br wa wb h3 x y hmx hmy
   | .not c, o, br, o', R, hdef, hwt, h => by
     simp only [convB] at h
     obtain ⟨p, h1, h⟩ := bind_ok _ _ _ h
     have := pure_ok _ _ h
     cases this
     have Rc : usesRestB c = true → OpsRest := fun hh => R (by simp [usesRestB, hh])
-    have gc := convB_rest_good anno env hctx c o p.1 p.2 Rc hdef hwt h1
+    have gc := convB_rest_good anno env hctx hnrm c o p.1 p.2 Rc hdef hwt h1
     intro b hb
     simp only [evalB] at hb
     obtain ⟨b0, hb0, hb⟩ := obind_some _ _ _ hb
@@ -583,8 +691,8 @@ theorem convB_rest_good (anno : Nat → SI) (env : Nat → Nat)
     cases this
     have Rc : usesRestB c = true → OpsRest := fun hh => R (by simp [usesRestB, hh])
     have Rd : usesRestB d = true → OpsRest := fun hh => R (by simp [usesRestB, hh])
-    have gc := convB_rest_good anno env hctx c o p.1 p.2 Rc hdef.1 hwt.1 h1
-    have gd := convB_rest_good anno env hctx d p.2 q.1 q.2 Rd hdef.2 hwt.2 h2
+    have gc := convB_rest_good anno env hctx hnrm c o p.1 p.2 Rc hdef.1 hwt.1 h1
+    have gd := convB_rest_good anno env hctx hnrm d p.2 q.1 q.2 Rd hdef.2 hwt.2 h2
     intro b hb
     simp only [evalB] at hb
     obtain ⟨b0, hb0, hb⟩ := obind_some _ _ _ hb
@@ -599,8 +707,8 @@ theorem convB_rest_good (anno : Nat → SI) (env : Nat → Nat)
     cases this
     have Rc : usesRestB c = true → OpsRest := fun hh => R (by simp [usesRestB, hh])
     have Rd : usesRestB d = true → OpsRest := fun hh => R (by simp [usesRestB, hh])
-    have gc := convB_rest_good anno env hctx c o p.1 p.2 Rc hdef.1 hwt.1 h1
-    have gd := convB_rest_good anno env hctx d p.2 q.1 q.2 Rd hdef.2 hwt.2 h2
+    have gc := convB_rest_good anno env hctx hnrm c o p.1 p.2 Rc hdef.1 hwt.1 h1
+    have gd := convB_rest_good anno env hctx hnrm d p.2 q.1 q.2 Rd hdef.2 hwt.2 h2
     intro b hb
     simp only [evalB] at hb
     obtain ⟨b0, hb0, hb⟩ := obind_some _ _ _ hb
@@ -617,9 +725,9 @@ theorem convB_rest_good (anno : Nat → SI) (env : Nat → Nat)
     have Rc : usesRestB c = true → OpsRest := fun hh => R (by simp [usesRestB, hh])
     have Ra : usesRestB a = true → OpsRest := fun hh => R (by simp [usesRestB, hh])
     have Rb : usesRestB b = true → OpsRest := fun hh => R (by simp [usesRestB, hh])
-    have gc := convB_rest_good anno env hctx c o pc.1 pc.2 Rc hdef.1 hwt.1 hc
-    have ga := convB_rest_good anno env hctx a pc.2 p.1 p.2 Ra hdef.2.1 hwt.2.1 h1
-    have gb := convB_rest_good anno env hctx b p.2 q.1 q.2 Rb hdef.2.2 hwt.2.2 h2
+    have gc := convB_rest_good anno env hctx hnrm c o pc.1 pc.2 Rc hdef.1 hwt.1 hc
+    have ga := convB_rest_good anno env hctx hnrm a pc.2 p.1 p.2 Ra hdef.2.1 hwt.2.1 h1
+    have gb := convB_rest_good anno env hctx hnrm b p.2 q.1 q.2 Rb hdef.2.2 hwt.2.2 h2
     intro bv hbv
     simp only [evalB] at hbv
     obtain ⟨cv, hcv, hbv⟩ := obind_some _ _ _ hbv
